@@ -89,7 +89,10 @@ std::string base_bytes(const std::string& base) {
   return std::string();
 }
 
+bool g_cold_start = false;
+
 void clear_zone_cache() {
+  if (g_cold_start) return;   // cold-start runs are the first and only execution of their process
   cctz::time_zone::Impl::ClearTimeZoneMapTestOnly();
   // The built-in UTC zone is process-wide and keeps its two hint indices from run to run.  Put them in
   // a canonical state through the public API so that a run's trace never depends on process history.
